@@ -163,7 +163,9 @@ Definition run_parse_line (line : str) : val :=
     The parent of a stored record is the Parent= value of its FIRST row (the raw
     text up to ';' or white space, a comma-separated list is kept as one string).
 
-    children(q): [parent_id LIKE '%q%'] (optionally [AND biotype = b]);
+    children(q): [parent_id LIKE '%q%'] (optionally [AND biotype = b]) — so a
+                 name that is merely PART of a parent name is accepted as well
+                 (g1 / g10), unless [strict];
     parent(q):   for every record whose [name LIKE '%q%'], in table order: stop
                  altogether at the first one without parent_id, else for each
                  name of its parent list the first record with [name = it]
@@ -174,10 +176,13 @@ Definition wrap_pct (q : str) : str := 37 :: q ++ [37].
 
 Definition row_parent (r : grow) : option str := parent_of_attrs (gl_attrs (gr_line r)).
 
-Definition gff_children (q : str) (bt : option str) (db : list grow) : list grow :=
+(** [strict = true]: the rule of notes/proposed_fixes/C17-5.diff — a record is kept
+    only if [q] IS one of the names of its parent list (unless [q] holds a '%') *)
+Definition gff_children (strict : bool) (q : str) (bt : option str) (db : list grow) : list grow :=
   filter (fun r =>
             match row_parent r with
             | Some p => like (wrap_pct q) p
+                        && (if strict && negb (has_pct q) then existsb (str_eqb q) (split_on 44 p) else true)
             | None => false
             end && match bt with None => true | Some b => str_eqb b (gl_biotype (gr_line r)) end) db.
 
@@ -206,13 +211,18 @@ Fixpoint parents_of (cands : list grow) (db : list grow) : list grow :=
       end
   end.
 
-Definition gff_parents (q : str) (db : list grow) : list grow :=
-  parents_of (filter (fun r => name_like q (gr_name r)) db) db.
+Definition name_exact (q : str) (n : gname) : bool :=
+  match n with GReal s => str_eqb q s | GFake _ => false end.
 
-(** a case: variant, file, block size, queries; per query (children, children of biotype CDS, parents) *)
-Definition run_family (c : bool * list (option gline) * Z * list str) : val :=
-  let '(fixed, lines, N, qs) := c in
+(** [strict = true] (C17-5.diff): candidates whose name merely contains [q] are skipped *)
+Definition gff_parents (strict : bool) (q : str) (db : list grow) : list grow :=
+  let cands := filter (fun r => name_like q (gr_name r)) db in
+  parents_of (if strict && negb (has_pct q) then filter (fun r => name_exact q (gr_name r)) cands else cands) db.
+
+(** a case: variants, file, block size, queries; per query (children, children of biotype CDS, parents) *)
+Definition run_family (c : bool * bool * list (option gline) * Z * list str) : val :=
+  let '(fixed, strict, lines, N, qs) := c in
   let db := st_db (load fixed N lines) in
-  VL (map (fun q => VL [VL (map grow_val (gff_children q None db));
-                        VL (map grow_val (gff_children q (Some [67; 68; 83]) db));
-                        VL (map grow_val (gff_parents q db))]) qs).
+  VL (map (fun q => VL [VL (map grow_val (gff_children strict q None db));
+                        VL (map grow_val (gff_children strict q (Some [67; 68; 83]) db));
+                        VL (map grow_val (gff_parents strict q db))]) qs).
